@@ -181,6 +181,10 @@ func c16Plans(rng *verifkit.Rand, tp c16Topo, dest *mkDest, n int, maxBytes int6
 		if p.Chunk < 512 && p.C2S > 20000 {
 			p.Chunk = 4096 // keep tiny-chunk tunnels short
 		}
+		p.ReadBuf = []int{0, 0, 100, 1000, 4096, 9000, 16356, 65536}[rng.Intn(8)]
+		if p.ReadBuf > 0 && p.ReadBuf < 1000 && p.S2C > 300000 {
+			p.ReadBuf = 1000
+		}
 		if opts.ChunkWhole && p.C2S > 0 {
 			p.Chunk = int(p.C2S)
 		}
